@@ -267,10 +267,13 @@ Inductive ev :=
 | EIf (w : who) (k : nat) (down : bool)  (* interface-state notification on w *)
 | ESwLocal (w : who) (force : bool)      (* local half of Manager.RequestSwitchover *)
 | ESwRemote (w : who)                    (* HAPeerServer.RequestSwitchover on w *)
-| ETouch (w : who) (i : nat).            (* in-flight message #(i mod len) reaches w WITHOUT a status for this
+| ETouch (w : who) (i : nat)             (* in-flight message #(i mod len) reaches w WITHOUT a status for this
                                             group (the Manager serves several groups; handlePeerHeartbeat then
                                             only runs its m.mu section: peerNodeID = msg.NodeId); requests are
                                             still answered with a full snapshot *)
+| EStale (w : who) (i : nat).            (* in-flight message #(i mod len) reaches w and is discarded by a staleness
+                                            filter at the top of handlePeerHeartbeat (Stale.v decides when); the
+                                            server still answers a request *)
 
 Fixpoint remove_nth {X} (i : nat) (l : list X) : list X :=
   match l, i with
@@ -320,6 +323,17 @@ Definition step (v : variant) (cs : cfgs) (s : pair) (e : ev) : pair * list (who
           let s := set_node w s n in
           let s := if h_req m
                    then set_queue (other w) s (queue_to (other w) s ++ [snapshot (cfg_of w cs) n false])
+                   else s in
+          (s, [])
+      end
+  | EStale w i =>
+      let q := queue_to w s in
+      match nth_error q (i mod length q)%nat with
+      | None => (s, [])
+      | Some m =>
+          let s := set_queue w s (remove_nth (i mod length q)%nat q) in
+          let s := if h_req m
+                   then set_queue (other w) s (queue_to (other w) s ++ [snapshot (cfg_of w cs) (node_of w s) false])
                    else s in
           (s, [])
       end
